@@ -135,6 +135,13 @@ def tetrahedral(pos, H, ppp):
                 amb[i] = True
         if dist[order[0]] <= AMBIG * scale:
             amb[i] = True
+        # conditioning: a bond vector is a difference of coordinates, so it carries an absolute error of about
+        # eps * max|coordinate|; its direction is then uncertain by eps * max|coordinate| / |bond|.  Directions enter
+        # the order parameter through cosines asserted at 1e-9, so bonds shorter than 1e-5 of the coordinate magnitude
+        # (never met in a physical configuration; a thorough run drew a cluster of near-coincident points and saw a
+        # 1e-9 relative difference between two equally valid evaluations) are not asserted.
+        if dist[four[0]] <= 1e-5 * max(scale, float(np.abs(pos).max())):
+            amb[i] = True
         # ties: a tied pair vector has several valid images (different directions, in tilted cells also different
         # lengths); relevant when the shortest of them is, or could be, among the four nearest
         if tie.any():
